@@ -243,6 +243,8 @@ func (c *connLimitConfig) validate() (err error) {
 		return nil
 	case c.Stop == 0:
 		return newNotPositiveError("stop", c.Stop)
+	case c.Resume == 0:
+		return newNotPositiveError("resume", c.Resume)
 	case c.Resume > c.Stop:
 		return errors.Error("resume: must be less than or equal to stop")
 	default:
